@@ -89,10 +89,10 @@ Theorem C30_served_by_capable_node : forall fuel ch cl a ro k,
 Proof. intros. apply serve_consistent; assumption. Qed.
 Print Assumptions C30_served_by_capable_node.
 
-(* REFUTED for endpoints whose handler never performs the routing switch: on ANY node, with
-   ANY role, the request is processed locally - in particular on a node that cannot serve it.
-   (Which endpoints are in this class is recomputed from the source on every run, see
-   Obligations.v; the guarded positive statements are the theorems above, consults = true.) *)
+(* Why the obligation "every write / query / import handler consults the decision" matters: a
+   handler that never performs the routing switch processes the request on ANY node, with ANY
+   role.  No registered endpoint is in this class on the current tree (Obligations.v recomputes
+   the class from the source on every run; 8 endpoints were, before /repo 1a7376f). *)
 Theorem C30_unrouted_endpoint_refuted : forall fuel ch cl a hdrs k,
   serve_client false (S fuel) ch cl a hdrs k = Processed a 0.
 Proof. reflexivity. Qed.
@@ -151,6 +151,18 @@ Example C30_unrouted_witness :
   serve_client false 2 [] ex_cluster (ex_anode 48 Reader) [] KWrite = Processed (ex_anode 48 Reader) 0 /\
   capable_here (ex_anode 50 Compactor) KQuery = false /\
   serve_client false 2 [] ex_cluster (ex_anode 50 Compactor) [] KQuery = Processed (ex_anode 50 Compactor) 0.
+Proof. repeat split; reflexivity. Qed.
+
+(* capability is a function of the role only: a writer in STANDBY (or PRIMARY) writer state serves
+   a write locally with or without a marker - it is the target a reader picks when no healthy
+   primary is registered, so it must not answer 508 to the forwarded request *)
+Example C30_standby_writer_serves :
+  let sb := {| a_id := ex_id 49;
+               a_router := Some {| r_local := Some (ex_entry 49 Writer WStandby SHealthy); r_reg := ex_view |} |} in
+  capable_here sb KWrite = true /\
+  serve_client true 2 [] ex_cluster sb [] KWrite = Processed sb 0 /\
+  serve_client true 2 [] ex_cluster sb [ex_id 48] KWrite = Processed sb 0 /\
+  serve true 2 [] ex_cluster sb (seen_of_marker (ex_id 48)) KWrite 1 = Processed sb 1.
 Proof. repeat split; reflexivity. Qed.
 
 (* the hypothesis of C30_one_hop is needed: two nodes with blank ids (" " and tab) whose
